@@ -193,7 +193,8 @@ class Monitors:
                     tr.count("semgrep_" + kind)
                     files = None if files_to_analyze is None else [str(x) for x in files_to_analyze]
                     rs = orig_run(execution_context, yaml_files, files_to_analyze)
-                    tr.emit("sg_call", kind=kind, targets=files, rules=len(list(yaml_files)), results={k: {str(p): len(v) for p, v in d.items()} for k, d in rs.items()})
+                    tr.emit("sg_call", kind=kind, targets=files, rules=len(list(yaml_files)), results={k: {str(p): len(v) for p, v in d.items()} for k, d in rs.items()},
+                            locs={k: {str(p): [[l.start.line, l.start.column, l.end.line, l.end.column] for r in v for l in r.locations if str(l.file) == str(p)] for p, v in d.items()} for k, d in rs.items()} if cfg.get("sg_locs") else None)
                     return rs
                 return run
             self._patch(CS, "semgrep_run", mkrun("own"))
@@ -201,10 +202,32 @@ class Monitors:
         if cfg.get("fs", False):
             self._fs_on = True
             _install_audit(tr, self)
+        if cfg.get("yield"):
+            # schedule perturbation: yield the GIL at statement starts inside repository code (H-fp, LINE events)
+            y = cfg["yield"]; monx = sys.monitoring; TOOL = 5
+            try: monx.use_tool_id(TOOL, "vf-yield")
+            except ValueError: pass
+            rnd = random.Random(y.get("seed", 0)); p_ = float(y.get("p", 0.02)); roots = ("/repo/src/", os.environ.get("VF_REPO_SRC", "/repo/src"))
+            lk = threading.Lock(); st = {"n": 0, "y": 0}
+            def on_line(code, line):
+                if not code.co_filename.startswith(roots): return monx.DISABLE
+                with lk:
+                    st["n"] += 1; hit = rnd.random() < p_
+                    if hit: st["y"] += 1
+                if hit: time.sleep(0)
+            monx.register_callback(TOOL, monx.events.LINE, on_line); monx.set_events(TOOL, monx.events.LINE)
+            self._old_switch = sys.getswitchinterval(); sys.setswitchinterval(1e-6)
+            self._yield = (monx, TOOL, st)
         return self
 
     def __exit__(self, *a):
         self._fs_on = False
+        if getattr(self, "_yield", None):
+            monx, TOOL, st = self._yield
+            monx.set_events(TOOL, 0); monx.register_callback(TOOL, monx.events.LINE, None); monx.free_tool_id(TOOL)
+            sys.setswitchinterval(self._old_switch)
+            self.tr.counters["line_events"] = self.tr.counters.get("line_events", 0) + st["n"]; self.tr.counters["yields_injected"] = self.tr.counters.get("yields_injected", 0) + st["y"]
+            self._yield = None
         for obj, name, old in reversed(self._undo):
             setattr(obj, name, old)
         self._undo.clear()
